@@ -302,7 +302,7 @@ def fill_search_whole_row(prog, rep, rule="R06.7"):
                             for n in walk(x):
                                 if n[0] == "call" and n[1].split("::")[-1] in ("next", "next_back") and "Scanlines" not in n[1] and n[3]:
                                     it = strip_refs(n[3][0])
-                                    while it[0] == "call" and it[1].split("::")[-1] in ("into_iter", "by_ref") and len(it[3]) == 1:
+                                    while it[0] == "call" and it[1].split("::")[-1] in ("into_iter", "by_ref", "rev") and len(it[3]) == 1:
                                         it = strip_refs(it[3][0])      # a `for` loop over the range
                                     subjects.add(it)
         except Unsupported as e:
